@@ -109,3 +109,37 @@ func VerifReplicate(n int, buf0 int, buf1 int) {
 	vAssert(vBlockedCount() == 0, "replicate/no-goroutine-left-blocked")
 	vCover("chans-replicate")
 }
+
+// VerifReplicateFew: zero or one destination - Replicate still blocks until src is closed, having
+// taken every value (a producer is never left parked on src).
+// args: values n, destinations (0..1)
+//verif:case C12 quick VerifReplicateFew 0..2 0..1
+func VerifReplicateFew(n int, dsts int) {
+	src := make(chan int)
+	d0 := make(chan int, n)
+	sent := 0
+	srcClosed := false
+	go func() {
+		for j := 0; j < n; j++ {
+			src <- j
+			vAtomic(func() { sent++ })
+		}
+		vAtomic(func() { srcClosed = true }) // (just before: whoever sees src closed sees the flag)
+		close(src)
+	}()
+	closedAtReturn := false
+	if dsts == 0 {
+		Replicate[int](src)
+	} else {
+		Replicate[int](src, d0)
+	}
+	vAtomic(func() { closedAtReturn = srcClosed })
+	vQuiesce()
+	vAssert(sent == n, "replicate/takes-every-value-from-the-source")
+	vAssert(closedAtReturn, "replicate/returns-only-after-the-source-was-closed")
+	if dsts == 1 {
+		vAssert(len(d0) == n, "replicate/everything-delivered")
+	}
+	vAssert(vBlockedCount() == 0, "replicate/no-goroutine-left-blocked")
+	vCover("chans-replicate-few")
+}
